@@ -360,6 +360,26 @@ func TestFixedScenarios(t *testing.T) {
 			"s3.p":   {},
 		}),
 	)
+	// callees that read names before they assign them, used several times in one run (the same one twice, in a loop, two
+	// different ones, nested): every call starts with no variables at all
+	{
+		reads := func(l string) *gen.Node { return gen.NCall("probe", gen.NStr(l), id("seen"), id("v"), id("w"), id("blk")) }
+		lib1 := func() []*gen.Node {
+			return []*gen.Node{reads("s1-start"), gen.NIf([]*gen.Node{gen.NBin("==", id("seen"), gen.NNil())}, [][]*gen.Node{{gen.NCall("probe", gen.NStr("s1-first"))}}, []*gen.Node{gen.NCall("probe", gen.NStr("s1-again"), id("seen"))}, true),
+				gen.NSet("seen", gen.NStr("set by s1")), gen.NSet("w", gen.NInt(5)), gen.NIf([]*gen.Node{gen.NBool(true)}, [][]*gen.Node{{gen.NSet("blk", gen.NInt(1)), gen.NSet("seen", gen.NStr("set in a block of s1"))}}, nil, false)}
+		}
+		lib2 := func() []*gen.Node {
+			return []*gen.Node{reads("s2-start"), gen.NAssign("+=", []*gen.Node{id("k1")}, []*gen.Node{gen.NInt(1)}), gen.NSet("seen", gen.NStr("set by s2")), gen.NCall("probe", gen.NStr("s2-k1"), id("k1"))}
+		}
+		cases = append(cases,
+			mk(map[string][]*gen.Node{"main.p": {gen.NCall("use", gen.NStr("s1.p")), gen.NCall("use", gen.NStr("s1.p")), reads("caller")}, "s1.p": lib1()}),
+			mk(map[string][]*gen.Node{"main.p": {gen.NForIn("i", gen.NList(gen.NInt(1), gen.NInt(2), gen.NInt(3)), []*gen.Node{gen.NCall("use", gen.NStr("s1.p"))}), reads("caller")}, "s1.p": lib1()}),
+			mk(map[string][]*gen.Node{"main.p": {gen.NCall("use", gen.NStr("s1.p")), gen.NCall("use", gen.NStr("s2.p")), gen.NCall("use", gen.NStr("s1.p")), reads("caller")}, "s1.p": lib1(), "s2.p": lib2()}),
+			mk(map[string][]*gen.Node{"main.p": {gen.NSet("seen", gen.NStr("caller's")), gen.NCall("use", gen.NStr("s2.p")), gen.NCall("use", gen.NStr("s3.p")), gen.NCall("use", gen.NStr("s2.p")), reads("caller")},
+				"s2.p": lib2(), "s3.p": append([]*gen.Node{gen.NCall("use", gen.NStr("s1.p")), gen.NCall("use", gen.NStr("s1.p"))}, reads("s3-after")), "s1.p": lib1()}),
+			mk(map[string][]*gen.Node{"main.p": {gen.NFor(gen.NSet("i", gen.NInt(0)), gen.NBin("<", id("i"), gen.NInt(2)), gen.NSet("i", gen.NBin("+", id("i"), gen.NInt(1))), []*gen.Node{gen.NCall("use", gen.NStr("s1.p")), gen.NCall("use", gen.NStr("s2.p"))}), reads("caller")}, "s1.p": lib1(), "s2.p": lib2()}),
+		)
+	}
 	// caller and callee decode the same document from the shared point: each has a document of its own
 	for _, doc := range []string{"{\"n\": 0, \"l\": [1, 2]}", "[1, [2, 3]]"} {
 		first := gen.NStr("n")
